@@ -4,7 +4,9 @@ import Frugal.Proofs.EncodeRefine
 import Frugal.Proofs.SizeExact
 import Frugal.Proofs.OptDefaults
 import Frugal.Proofs.DecodeRefine
-import Frugal.Props.Instances
+import Frugal.Props.Inst.Params
+import Frugal.Props.Inst.F_skeleton_decoder
+import Frugal.Props.Inst.F_skeleton_encoder
 namespace Frugal.C10
 open Frugal
 /-- the skip logic of the encoder as written (the two flags computed per field, the two tests in
@@ -97,4 +99,16 @@ theorem decoder_is_reader (S : Schema) (hS : S.ok = true) (sid : Nat) (fs : List
     decodeM Generated.params S sid (ser (.strct fs) ++ trailing) dest =
       (readMessage Generated.params S sid fs trailing.length dest).mapv (·, (ser (.strct fs)).length) :=
   decodeM_refines Instances.params_valid S hS sid fs trailing dest hw
+/-- the theorems above that speak of `decodeM` / the reference reader are about the hand-written model
+    of `Decode` / `decodeType` / `decodeStringNoCopy` / `decodeFixedSizeTypes` / `skipUnknown`
+    (Decode.lean), written from exactly this control structure of the code (regenerated fingerprint) -/
+theorem decoder_model_written_from_this_code : Generated.facts.decoderSkeleton = Skeleton.decoder :=
+  Instances.skeleton_decoder
+
+/-- … and those that speak of `appendM` / `sizeM` about the hand-written model of `appendStruct` /
+    `appendAny` / the size walk / the entry points (Encode.lean), written from exactly this control
+    structure of the code (regenerated fingerprint; the fast-path tables are regenerated themselves) -/
+theorem encoder_model_written_from_this_code : Generated.facts.encoderSkeleton = Skeleton.encoder :=
+  Instances.skeleton_encoder
+
 end Frugal.C10
